@@ -122,7 +122,12 @@ def run_case(c):
         else:
             fc = models.pair_fc(sc.cell, sc.scaled_positions, sc.symbols, cutoff=rng.uniform(3.0, 6.5))
         scale = np.abs(fc).max()
-        ph.force_constants = np.array(fc if rng.integers(2) else fc[p2s], dtype="double", order="C")
+        # (the constants as the caller may hold them: C order, Fortran order - owning its data -, strided window, view ...: same numbers)
+        from vlib.gen.layout import ARRAY_KINDS, relayout as _rl
+
+        fc_in, fckind = _rl(fc if rng.integers(2) else fc[p2s], rng, kind=ARRAY_KINDS[int(rng.integers(len(ARRAY_KINDS)))])
+        obs["fclayout_" + fckind] = 1
+        ph.force_constants = fc_in
         d2f = DynmatToForceConstants(pr, sc, is_full_fc=c["full"], use_openmp=bool(c.get("use_openmp", False)))
         obs["roundtrip_openmp_branch" if c.get("use_openmp") else "roundtrip_serial_branch"] = 1
         obs["threads_%d" % c.get("_threads", 2)] = 1
@@ -166,7 +171,11 @@ def run_case(c):
     fc = models.pair_fc(sc.cell, sc.scaled_positions, sc.symbols, cutoff=rng.uniform(3.0, 5.5))
     if np.abs(fc).max() < 1e-8:
         return {"skip": "no interaction inside range", "nontrivial": False}
-    ph.force_constants = np.array(fc if c["full"] else fc[p2s], dtype="double", order="C")
+    from vlib.gen.layout import ARRAY_KINDS, relayout as _rl
+
+    fc_in, fckind = _rl(fc if c["full"] else fc[p2s], rng, kind=ARRAY_KINDS[int(rng.integers(len(ARRAY_KINDS)))])
+    obs["fclayout_" + fckind] = 1
+    ph.force_constants = fc_in
     if c["nac"]:
         ph.nac_params = nacgen.random_nac(ph, rng, method=c["nac"])
     with_nac = bool(c["nac"]) and bool(c.get("with_nac", True))
